@@ -566,7 +566,9 @@ theorem mergeVals_nonneg (vals : List Rat) (map : List Nat) (n : Nat) (hv : ∀ 
 theorem wf_mergeWithMap (fo : FloatOps) (h r : H1) (map : List Nat) (w : WF fo h)
     (hr : h.mergeWithMap fo map = .ok r) : WF fo r := by
   unfold H1.mergeWithMap at hr
-  simp only [bind, Except.bind, pure, Except.pure] at hr
+  by_cases hem : map.isEmpty = true
+  · simp [hem, bind, Except.bind, throw, throwThe, MonadExceptOf.throw] at hr
+  simp only [hem, Bool.false_eq_true, if_false, bind, Except.bind, pure, Except.pure] at hr
   cases hm : mergeBinsAux ((h.bins fo).zip map) none with
   | error e => simp [hm] at hr
   | ok nb =>
